@@ -283,7 +283,7 @@ pub fn case(ctx: &mut Ctx, idx: u64) {
         } else {
             // cold-start campaign: the first map (first wave) is short, so that all threads reach the same code within
             // a few microseconds of each other
-            let cold_first = pool.is_empty() && ctx.param_u64("cold", 0) == 1;
+            let cold_first = pool.is_empty() && ctx.param_u64("cold", 0) != 0;
             gen::gen_map(
                 &mut rng,
                 &Mix {
@@ -325,7 +325,7 @@ pub fn case(ctx: &mut Ctx, idx: u64) {
         })
         .collect();
     let mut jobs = jobs;
-    if ctx.param_u64("cold", 0) == 1 {
+    if ctx.param_u64("cold", 0) != 0 {
         // cold-start campaign: the first wave (job 0, run by every thread at once) is a difficulty-bearing calculation;
         // mode and kind rotate with the case index so that every mode's first-use paths are raced in some process
         let modes = maps::reachable_modes(&pool[0]);
@@ -413,12 +413,33 @@ pub fn case(ctx: &mut Ctx, idx: u64) {
     // cold-start campaign (`--param cold=1`, one case per process): the parallel schedule runs BEFORE anything else has
     // been calculated in this process, so lazily initialised process-wide state is set up by racing threads; the
     // sequential reference is taken afterwards.
+    // `cold=2`: the reference process of the cold-start campaign - the same cases and jobs, calculated strictly one after
+    // another by a process that never runs two calculations at once. Process-wide state that a race corrupted *for good*
+    // (an append-only table, a cached constant) makes the racing process agree with itself; only another process can tell.
+    if ctx.param_u64("cold", 0) == 2 {
+        match guard(|| jobs.iter().map(|j| run_job(j, &shared[j.map])).collect::<Vec<_>>()) {
+            Ok(v) => {
+                for (j, r) in v.iter().enumerate() {
+                    ctx.hist_line(&format!("{idx}/{j}/kind{}", jobs[j].kind), hash_str(r));
+                }
+                ctx.evals(v.len() as u64);
+                ctx.count("cold_start_reference_cases");
+            }
+            Err(p) => ctx.violation(&format!("C20/reference-panic/{}", p.sig()), &format!("{} at {}", p.msg, p.loc), Some(&all_text)),
+        }
+        return;
+    }
     let cold = ctx.param_u64("cold", 0) == 1;
     let cold_results = if cold {
         let threads = max_threads.clamp(2, 16);
         ctx.count("cold_start_schedules");
         match run_schedule(&mut rng, threads, false, false, true) {
-            Some(r) => Some((threads, r)),
+            Some(r) => {
+                for (j, got, _, _, _) in &r {
+                    ctx.hist_line(&format!("{idx}/{j}/kind{}", jobs[*j].kind), hash_str(got));
+                }
+                Some((threads, r))
+            }
             None => {
                 ctx.violation("C20/thread-died", "a worker thread died (cold start)", Some(&all_text));
                 return;
